@@ -99,6 +99,31 @@ CHECKS = {
             "(bid/ask/mid/spread, acq/liq price for +1/-1/0, vector forms, is_alive, full history) for 7 keys incl. string keys is compared with the reference.",
             "One timestamp per quote; history kept in the state key as length + last two entries.",
             "DESIGN 4/C14"),
+    "C09": ("fault_enumeration",
+            "fault enumeration: ruinous price paths at every point of a step x positions x rewards x all follow-up call scripts, judged by an independent ledger",
+            "5 leveraged/short/margined positions x adverse moves (NLV exactly 0 and negative) at bar 1-3 applied as a latent quote before the decision or as the "
+            "bar after it, with/without recovery (as bar or latent quote), plus non-positive initial cash, x 4 reward functions x every call script "
+            "step,(step|step-other|reset)^4 (quick) / ^5 (thorough): a decision arriving with ledger NLV <= 0 executes nothing, the insolvent step reports done, "
+            "later steps are refused unchanged until reset, reset restores a solvent empty account, valuation raises iff NLV <= 0.",
+            "Three manifestations of one defect (step() raising from the reward computation at ruin) are listed in known_findings.json by traceback "
+            "signature and reported as KNOWN-FINDING; anything else is a VIOLATION.",
+            "DESIGN 4/C09"),
+    "C15": ("exploration",
+            "bounded-exhaustive: grids x every fold window x every episode length x every start offered (chooser seam); all walk-forward parameters",
+            "Grids of 3-5 (quick) / 3-8 (thorough) points with event-less points x EVERY fold window over grid points, midpoints and beyond-the-ends x episode "
+            "length None/1..size+1 x sampling span x every start handed to numpy.random.choice, plus overlapping fold pairs: visited steps are exactly the "
+            "consecutive event-bearing points of the fold slice, n decisions, candidate set = all fitting positions with p>0, refusal when none fits; all 910 "
+            "walk-forward (N<=14, train, test, sliding/expanding) cases: test windows disjoint, ordered, sized, starting right after their training window.",
+            "Steps observed through env.now(); TradingEnv(episode_length=n) = n decisions.",
+            "DESIGN 4/C15"),
+    "C17": ("fault_enumeration",
+            "fault enumeration: every malformed action of a menu injected at every step of short episodes x spaces x cash placement x delays",
+            "10 spaces (Box [0,1], Box [-1,1.5], whole-lot contract Box, Discrete; contracts without cash / cash first / cash last) x delay 0-2 x ~14 malformed "
+            "actions (wrong length, 2-D, one ulp / 1 out of bounds, NaN, inf, None, string, bad indices) at every step position: rejected no later than due, "
+            "account and track record unchanged across the raising call, never executed; in-space actions executed as the allocation they denote with cash "
+            "entries ignored and positions = w x NLV / execution price.",
+            "bool indices excluded (gymnasium accepts them).",
+            "DESIGN 4/C17"),
 }
 
 ALL = ["C%02d" % i for i in range(1, 20)]
